@@ -246,6 +246,8 @@ def gen_spec(seed, **force):
         spec["narrowing_boxes"] = True
     if force.get("per_level_problems") and spec["wrappers"] in ("none", "counting", "stats") and spec["gsc"]["kind"] != "Precision":
         spec["level_offsets"] = [0.0] + [rng.choice([0.25, -1.5, 3.0]) for _ in range(height - 1)]
+    if force.get("looking_gsc"):       # the stop condition is wrapped by a user-style one that reads tree.best_individual / n_evaluations at every consult
+        spec["looking_gsc"] = True
     spec["cap_metaepochs"] = force.get("cap_metaepochs", 14)
     spec["cap_evals"] = force.get("cap_evals", 3000)
     # nbc_local generator needs >= 2 levels below... it iterates levels[:-2] and levels[-2]
